@@ -212,4 +212,50 @@ theorem processPayload_payload_append (t : Tracker) (seq : Nat) (p : Bytes) :
     unfold storedState
     rw [storePayload_payload]
 
+/-! ### the result of `process_payload` is exactly "the delivered data grew" (for any arguments) -/
+
+theorem drain_flag (fuel : Nat) (t : Tracker) (iter : Option Nat) (added : Bool) :
+    (drain fuel t iter added).2
+      = (added || decide (t.payload.length < (drain fuel t iter added).1.payload.length)) := by
+  induction fuel generalizing t iter added with
+  | zero => simp [drain_zero]
+  | succ fuel ih =>
+    cases iter with
+    | none => simp [drain_none]
+    | some key =>
+      rw [drain_succ]
+      split
+      · simp
+      · next chunk hl =>
+        split
+        · split
+          · split
+            · rw [ih]
+              have : (sliceState t key chunk).payload = t.payload := by
+                show (storePayload _ _ _).payload = _
+                rw [storePayload_payload]
+              rw [this]
+            · rw [ih]; rfl
+          · rw [ih]
+            obtain ⟨d, hd⟩ := drain_payload_append fuel (deliverState t key chunk)
+              (cyclicSucc (deliverState t key chunk).buf key) (added || !chunk.isEmpty)
+            rw [hd]
+            have e : (deliverState t key chunk).payload = t.payload ++ chunk := rfl
+            rw [e]
+            cases chunk with
+            | nil => simp
+            | cons x xs => simp
+        · simp
+
+/-- `process_payload` returns true iff data was appended to the delivered payload -/
+theorem processPayload_flag (t : Tracker) (seq : Nat) (p : Bytes) :
+    (processPayload t seq p).2 = decide (t.payload.length < (processPayload t seq p).1.payload.length) := by
+  rw [processPayload_eq]
+  split
+  · simp
+  · rw [drain_flag]
+    have : (storedState t seq p).payload = t.payload := by
+      unfold storedState; rw [storePayload_payload]
+    rw [this]; simp
+
 end Tins.DT
